@@ -85,9 +85,22 @@ def _grid(tier_max):
                         yield missed, mn, mx, clip, semi
 
 
+def _enzyme(pat, k):
+    """The same enzyme rule spelled four ways: pattern text, compiled, compiled with flags that carry meaning
+    (verbose spelling with a comment; lower-case spelling that ignores case). The reference always uses the plain text."""
+    k %= 4
+    if k == 0:
+        return pat
+    if k == 1:
+        return re.compile(pat)
+    if k == 2:
+        return re.compile(pat + "   # cleavage rule", re.VERBOSE)
+    return re.compile(pat.lower(), re.IGNORECASE)
+
+
 def _check_one(fasta, seq, pat, missed, mn, mx, clip, semi):
-    # alternate between the pattern string and a compiled pattern (both are documented)
-    enz = re.compile(pat) if (len(seq) + missed + mn) % 2 else pat
+    # alternate between the pattern string and compiled patterns (both are documented)
+    enz = _enzyme(pat, len(seq) + missed + mn)
     got = guarded(fasta.digest, seq, enzyme_regex=enz, missed_cleavages=missed, clip_nterm_methionine=clip,
                   min_length=mn, max_length=mx, semi=semi, sig="digest")
     require(isinstance(got, set), "type", f"digest returned {type(got)}")
@@ -125,7 +138,7 @@ def _check_read_fasta(fasta, case, direct):
     with scratch_dir() as tmp:
         path = tmp / "db.fasta"
         path.write_text("".join(f">{n} descr\n" + "\n".join(sq[i:i + 60] for i in range(0, len(sq), 60)) + "\n" for n, sq in entries))
-        prot = guarded(fasta.read_fasta, str(path), enzyme=(re.compile(pat) if len(seq) % 2 else pat), missed_cleavages=missed,
+        prot = guarded(fasta.read_fasta, str(path), enzyme=_enzyme(pat, len(seq)), missed_cleavages=missed,
                        clip_nterm_methionine=clip, min_length=mn, max_length=mx, semi=semi, decoy_prefix="decoy_", sig="read_fasta")
     got = set(prot.peptide_map) | set(prot.shared_peptides)
     par = f"read_fasta seq={seq!r} enzyme={pat!r} missed={missed} min={mn} max={mx} clip={clip} semi={semi}"
